@@ -24,10 +24,10 @@ type zzAud struct {
 	segs    []string
 }
 
-func zzNewAud(name string, k, l int) zzAud {
+func zzNewAud(name string, k, l int, upper bool) zzAud {
 	var a zzAud
 	scheme := ""
-	if zz.Thorough() && zz.Choice(name+".upper", 2) == 1 {
+	if upper && zz.Choice(name+".upper", 2) == 1 {
 		scheme, a.lscheme = "HTTPS", "https"
 	} else {
 		scheme = zz.StringEx(name+".scheme", 5, zzuri.AllBut(zzuri.Lower))
@@ -68,16 +68,18 @@ func zzRefAudCovers(h, n zzAud) bool {
 }
 
 func ZZ_C12_aud_default() {
-	k, l, hn := 2, 4, 1
+	k, l, hn := 2, 3, 1
 	if zz.Thorough() {
-		k, l = 3, 6
-		hn = 1 + zz.Choice("haystack", 2)
+		k, l = 3, 4
+		if hn = 1 + zz.Choice("haystack", 2); hn == 2 {
+			k = 1 // two whitelisted URLs: at most one segment each (keeps the tier inside its budget)
+		}
 	}
-	needle := zzNewAud("n", k, l)
+	needle := zzNewAud("n", k, l, zz.Thorough() && hn == 1)
 	var hay []string
 	want := false
 	for j := 0; j < hn; j++ {
-		h := zzNewAud("h", k, l)
+		h := zzNewAud("h", k, l, false)
 		hay = append(hay, h.raw)
 		want = zz.Or(want, zzRefAudCovers(h, needle))
 	}
